@@ -19,6 +19,8 @@
 (*                  the next allocation and when the owner of the pool     *)
 (*                  looks -- and no chunk is released while the pool lives *)
 (*                  except by PoolReset                                    *)
+(*  returns         get* hands out a guard (or Err when the arena cannot   *)
+(*                  be created) and the guard's drop returns: no panic     *)
 (*  reset / reset_to_start / drop                                          *)
 (*                  every arena ever created is covered and ends up as     *)
 (*                  Bump::reset / reset_to_start / drop leave a single     *)
@@ -139,6 +141,8 @@ Step ==
       [] k = "pool_drop" ->
             /\ UNCHANGED <<own, ofirst, owners, mpeak, ids, pend, expFrees>>
             /\ Report(IF DropOK THEN {} ELSE {"drop"})
+      [] k = "panic" ->        \* a get / drop (or an allocation through the guard) panicked instead of returning
+            /\ UNCHANGED <<own, ofirst, owners, mpeak, ids, pend, expFrees>> /\ Report({"returns"})
       [] OTHER ->
             /\ UNCHANGED <<own, ofirst, owners, mpeak, ids, pend, expFrees>> /\ Report({})
 
